@@ -130,6 +130,6 @@ Mark ==
 Accepted == PrintT(<<"TVMARK", TLCGet(1), NL>>) /\ TLCGet(1) = NL
 
 \* the harness always uses the same five target channels
-TVEType == (1 :> "int") @@ (2 :> "any") @@ (3 :> "ptr") @@ (4 :> "string") @@ (5 :> "nslice")
-TVCap   == (1 :> 0) @@ (2 :> 1) @@ (3 :> 0) @@ (4 :> 0) @@ (5 :> 0)
+TVEType == (1 :> "int") @@ (2 :> "any") @@ (3 :> "ptr") @@ (4 :> "string") @@ (5 :> "nslice") @@ (6 :> "func")
+TVCap   == (1 :> 0) @@ (2 :> 1) @@ (3 :> 0) @@ (4 :> 0) @@ (5 :> 0) @@ (6 :> 0)
 =============================================================================
